@@ -291,7 +291,7 @@ pub fn run(opts: &Opts) {
         return;
     }
     let mut rng = Rng::new(opts.seed ^ 0x07);
-    let k = opts.scale * if opts.thorough() { 300 } else { 5 };
+    let k = opts.scale * if opts.thorough() { 100 } else { 5 };
     let mut n = 0;
     while n < 4000 * k {
         out.begin_case("headers");
